@@ -331,6 +331,69 @@ fn exec_c<C: GenericConfig<D, F = F>>(case: &Case, rep: &mut Report) {
         }
     }
 
+    // ---- (h) a Byzantine prover that commits, for a FALSE opening, to exactly the function the verifier will
+    // reconstruct at the first layer (so every first-layer check passes), folds it honestly, and either lets the
+    // library truncate the final polynomial or sends the whole last layer as "final polynomial"
+    if want("quotient_function") && !case.hiding {
+        use plonky2::field::polynomial::PolynomialValues;
+        let bi = fr.usize(s.openings.batches.len());
+        let vi = fr.usize(s.openings.batches[bi].values.len());
+        let mut lie = clone_openings(&s.openings);
+        lie.batches[bi].values[vi] += FE::ONE;
+        for untruncated in [false, true] {
+            let mut chp = Challenger::<F, C::Hasher>::new();
+            for c in &s.caps {
+                chp.observe_cap::<C::Hasher>(c);
+            }
+            for _ in 0..zs.len() {
+                let _ = chp.get_extension_challenge::<D>();
+            }
+            chp.observe_openings(&lie);
+            let p2 = guarded(|| {
+                let alpha_v = chp.get_extension_challenge::<D>();
+                let lde_bits = params.lde_bits();
+                let big_n = 1usize << lde_bits;
+                let w = F::primitive_root_of_unity(lde_bits);
+                let reduced_openings: Vec<FE> = lie.batches.iter().map(|b| ReducingFactor::new(alpha_v).reduce(b.values.iter())).collect();
+                let mut vals: Vec<FE> = Vec::with_capacity(big_n);
+                let mut x = F::coset_shift();
+                for _ in 0..big_n {
+                    let xe = <FE as FieldExtension<D>>::from_basefield(x);
+                    let mut alpha = ReducingFactor::new(alpha_v);
+                    let mut sum = FE::ZERO;
+                    for (b, ro) in s.instance.batches.iter().zip(&reduced_openings) {
+                        let evals: Vec<FE> = b.polynomials.iter().map(|pi| <FE as FieldExtension<D>>::from_basefield(batches[pi.oracle_index].polynomials[pi.polynomial_index].eval(x))).collect();
+                        let reduced = alpha.reduce(evals.iter());
+                        sum = alpha.shift(sum);
+                        sum += (reduced - *ro) / (xe - b.point);
+                    }
+                    vals.push(sum);
+                    x *= w;
+                }
+                let values = PolynomialValues::new(vals);
+                let coeffs = values.clone().coset_ifft(F::coset_shift().into());
+                let mut pp = params.clone();
+                if untruncated {
+                    // "rate 1": the prover's truncation keeps the whole last layer
+                    pp.degree_bits = lde_bits;
+                    pp.config.rate_bits = 0;
+                }
+                let trees: Vec<_> = batches.iter().map(|b| &b.merkle_tree).collect();
+                fri_proof::<F, C, D>(&trees, coeffs, values, &mut chp, &pp, None, None, &mut TimingTree::default())
+            });
+            if let Ok(p2) = p2 {
+                let name = if untruncated { "quotient_function.whole_last_layer_as_final_poly" } else { "quotient_function.truncated_by_library" };
+                rep.fault(name);
+                rep.case(base_sig ^ hash_str(name), true);
+                if let Some(c2) = verifier_challenges(&s, &lie, &p2, &params) {
+                    if accepts(&s, &lie, &c2, &p2, &params) {
+                        viol(rep, case, "quotient_function", "accepted_wrong_opening", format!("{name}: final_poly has {} coefficients, parameters announce {}", p2.final_poly.len(), params.final_poly_len()));
+                    }
+                }
+            }
+        }
+    }
+
     // ---- (c) first layer committed to a different function
     if want("other_function") {
         let other: Vec<PolynomialCoeffs<F>> = (0..case.oracles[0].0).map(|_| PolynomialCoeffs::new((0..n).map(|_| F::from_canonical_u64(fr.felt())).collect())).collect();
@@ -480,7 +543,7 @@ fn exec_c<C: GenericConfig<D, F = F>>(case: &Case, rep: &mut Report) {
             rep.fault("commit_cap_all_entries.fixed_challenges");
             rep.case(base_sig ^ hash_str("capall") ^ ci as u64, true);
             if accepts(&s, &s.openings, &hc, &p2, &params) {
-                viol(rep, case, "element_cap", "accepted_altered_commit_phase_cap_under_fixed_challenges", format!("cap {ci}"));
+                viol(rep, case, "element:cap", "accepted_altered_commit_phase_cap_under_fixed_challenges", format!("cap {ci}"));
             }
         }
     }
